@@ -4,7 +4,9 @@ from . import civil as C
 
 THEOREMS = {
     'C04': ['Cctz.C04.nSec_valid', 'Cctz.C04.nSec_exact', 'Cctz.C04.nSec_unique', 'Cctz.C04.align_spec',
-            'Cctz.C04.civilNew_spec', 'Cctz.C04.nSec_no_overflow'],
+            'Cctz.C04.civilNew_spec', 'Cctz.C04.nSec_no_overflow',
+            'Cctz.C04Align.align_monotone', 'Cctz.C04Align.align_fix', 'Cctz.C04Align.align_idem', 'Cctz.C04Align.align_floor',
+            'Cctz.C04Align.align_month_year', 'Cctz.C04Align.align_lt_next'],
     'C05': ['Cctz.C05.add_exact', 'Cctz.C05.sub_exact', 'Cctz.C05.difference_exact', 'Cctz.C05.inverse', 'Cctz.C05.lt_iff',
             'Cctz.C05.lt_iff_difference', 'Cctz.C05.add_no_overflow', 'Cctz.C05.sub_no_overflow', 'Cctz.C05.difference_no_overflow',
             'Cctz.C05Algebra.add_add', 'Cctz.C05Algebra.add_sub_cancel', 'Cctz.C05Algebra.sub_eq_add_neg', 'Cctz.C05Algebra.add_zero',
@@ -76,7 +78,7 @@ def site_sig(out):
 
 
 def run_C04(chk):
-    chk.prepare_model('Cctz.Properties.C04', THEOREMS['C04'])
+    chk.prepare_model(['Cctz.Properties.C04', 'Cctz.Properties.C04Align'], THEOREMS['C04'])
     exe = chk.harness('san')
     scale = chk.tier if not (chk.broken or chk.degraded) else 'thorough'
     if exe is None or not getattr(chk, 'driver_ok', False):
